@@ -240,6 +240,7 @@ func init() {
 			}
 			prev(w)
 			w.monitorOrder()
+			w.monitorQoS2Out() // C03 at the wrap: PUBREL 0xffff, then PUBLISH 0xc000
 		}
 		return s
 	})
